@@ -141,7 +141,9 @@ class Evaluator:
         self.assume = assume  # callable(cond term) -> True / False / None
         self.batch_params = tuple(batch_params)
         self.loop_mode = "havoc"
+        self.transparent_extra: set = set()  # extra value-preserving callables for one evaluation (e.g. deepcopy)
         self.loops: list = []
+        self.unrolled: list = []  # (node, func, iterations) of field loops that were unrolled
         self.divisions: list = []  # (denominator term, node, func)
         self.infeasible = False
         self.max_depth = max_depth
@@ -395,7 +397,33 @@ class Frame:
         ev = self.ev
         pre_env = dict(st.env)
         if isinstance(s, ast.For):
-            self.eval(s.iter, st)
+            dom = self.eval(s.iter, st)
+            # a loop over the (statically known) dataclass fields of a repo class is unrolled
+            if _concrete_domain(dom) and all(x[0] == "fld" for x in dom[1]):
+                body = _structured_body(s.body)
+                if body is not None:
+                    for el in dom[1]:
+                        self.assign(s.target, el, st, s)
+                        self.exec_block(body, st)
+                        if not st.live:
+                            break
+                    if st.live:
+                        self.exec_block(s.orelse, st)
+                    ev.unrolled.append((s, self.f, len(dom[1])))
+                    return
+            # `for p in names: d.pop(p, ...)` on a literal dict whose spread entry is dict(zip(names, ...)):
+            # exactly the spread's keys are removed (names are assumed not to collide with the literal keys)
+            if len(s.body) == 1 and isinstance(s.body[0], ast.Expr) and isinstance(s.body[0].value, ast.Call) and isinstance(s.target, ast.Name) and not s.orelse:
+                c = s.body[0].value
+                if isinstance(c.func, ast.Attribute) and c.func.attr == "pop" and isinstance(c.func.value, ast.Name) and c.args \
+                        and isinstance(c.args[0], ast.Name) and c.args[0].id == s.target.id:
+                    d = st.env.get(c.func.value.id)
+                    if d is not None and d[0] == "d":
+                        spread = [v for k, v in d[1] if k == T.K("**")]
+                        if len(spread) == 1 and _zipdict_keys(spread[0]) == dom:
+                            st.env[c.func.value.id] = ("d", tuple((k, v) for k, v in d[1] if k != T.K("**")))
+                            ev.unrolled.append((s, self.f, -1))
+                            return
         assigned, attr_assigned = _assigned_names(s)
         if ev.loop_mode == "skip" and isinstance(s, ast.While):
             t0 = self.eval(s.test, st)
@@ -625,6 +653,30 @@ class Frame:
 
     def eval_comp(self, e, st: State):
         """Comprehensions: [elt for v in it (if c)] -> map(elt[v:=ELEM(it)], it)."""
+        if len(e.generators) == 1:
+            dom = self.eval(e.generators[0].iter, st)
+            if _concrete_domain(dom):
+                out, ok = [], True
+                for el in dom[1]:
+                    sub = st.copy()
+                    self.assign(e.generators[0].target, el, sub, e)
+                    keep = True
+                    for c in e.generators[0].ifs:
+                        d = self.decide(self.eval(c, sub))
+                        if d is None:
+                            ok = False
+                            break
+                        keep = keep and d
+                    if not ok:
+                        break
+                    if keep:
+                        out.append((self.eval(e.key, sub), self.eval(e.value, sub)) if isinstance(e, ast.DictComp) else self.eval(e.elt, sub))
+                if ok:
+                    if isinstance(e, ast.DictComp):
+                        return ("d", tuple(out))
+                    if isinstance(e, ast.SetComp):
+                        return ("f", "set", tuple(sorted(set(out), key=repr)), ())
+                    return ("l", tuple(out))
         sub = st.copy()
         iters = []
         for g in e.generators:
@@ -678,6 +730,11 @@ class Frame:
             return ("ref", f"{base[1]}.{attr}")
         if is_namespace(base) and attr in CONST_ATTRS:
             return T.atom(CONST_ATTRS[attr])
+        if base[0] == "fld":
+            if attr == "name":
+                return T.K(base[2])
+            if attr == "init":
+                return T.TRUE if base[3] else T.FALSE
         cls = ev.types.get(base)
         if cls is not None and attr == "__class__" and base[0] != "ref":
             return ("ref", cls.ident)
@@ -813,6 +870,11 @@ class Frame:
                     keys_b = {k for k, _ in args[0][1]}
                     st.env[name] = ("d", tuple((k, v) for k, v in items if k not in keys_b) + args[0][1])
                     return T.NONE
+                if fn.attr == "update" and len(args) == 1 and not kwargs:
+                    # merging a mapping with unknown keys: kept as a spread entry (like {**m})
+                    st.env[name] = ("d", tuple(items) + ((T.K("**"), args[0]),))
+                    self._record("method:update", [recv] + list(args), kwargs, e, T.NONE, recv)
+                    return T.NONE
             return self.call_attr(recv, fn.attr, args, kwargs, e, st)
 
         callee = self.eval(fn, st)
@@ -841,6 +903,13 @@ class Frame:
                         return self._call_repo(m, ev.types.get(args[0], c), args[0], args[1:], kwargs, e)
             # external function by dotted name
             last = ident.rsplit(".", 1)[-1]
+            if ident == "dataclasses.fields" and len(args) == 1:
+                c = ev.types.get(args[0])
+                if c is None and args[0][0] == "ref":
+                    c = self._lookup_ident(args[0][1])
+                    c = c if isinstance(c, ClassInfo) else None
+                if c is not None and c.fields():
+                    return ("l", tuple(("fld", c.ident, f.name, bool(f.init)) for f in c.fields()))
             return self.call_namespace_func(last, args, kwargs, e, origin=ident)
         return self._event(f"call:{T.show(callee)}", args, kwargs, e, callee)
 
@@ -914,7 +983,7 @@ class Frame:
 
     def call_namespace_func(self, name, args, kwargs, e, origin=""):
         """``xp.<name>(...)`` / external ``<name>(...)``."""
-        if name in TRANSPARENT_FUNCS and args:
+        if (name in TRANSPARENT_FUNCS or name in self.ev.transparent_extra) and args:
             self._event(f"xp.{name}", args, kwargs, e, None, pure=True)
             return args[0]
         if name in CANON_FUNCS:
@@ -974,6 +1043,13 @@ class Frame:
                     if k == args[0]:
                         return v
                 return args[1] if len(args) > 1 else T.NONE
+            if not args and all(k[0] == "k" and k[1] != "**" for k, _ in recv[1]):
+                if attr == "items":
+                    return ("l", tuple(("t", (k, v)) for k, v in recv[1]))
+                if attr == "keys":
+                    return ("l", tuple(k for k, _ in recv[1]))
+                if attr == "values":
+                    return ("l", tuple(v for _, v in recv[1]))
         # value methods
         if attr == "array_to_namespace" and args:
             # BaseSamples.array_to_namespace on a receiver of unknown class:
@@ -1414,6 +1490,66 @@ def mod_summary(repo: Repo, f: FuncInfo, cls, _depth=0, _seen=None) -> set:
 
 
 # ---------------------------------------------------------------- conditions
+def _structured_body(stmts):
+    """Loop body with `if c: ...; continue` rewritten to if/else form, or None
+    when the body contains a break, a return, or a continue in another position."""
+    def has_jump(nodes):
+        for n in nodes:
+            for x in walk_no_nested(n) if not isinstance(n, (ast.For, ast.While)) else []:
+                if isinstance(x, (ast.Continue, ast.Break, ast.Return)):
+                    return True
+            if isinstance(n, (ast.For, ast.While)):
+                if any(isinstance(x, ast.Return) for x in walk_no_nested(n)):
+                    return True
+        return False
+
+    def rw(block):
+        out = []
+        for i, st_ in enumerate(block):
+            if isinstance(st_, ast.Continue):
+                return out
+            if isinstance(st_, ast.If) and has_jump([st_]):
+                b_c = bool(st_.body) and isinstance(st_.body[-1], ast.Continue)
+                o_c = bool(st_.orelse) and isinstance(st_.orelse[-1], ast.Continue)
+                b = st_.body[:-1] if b_c else st_.body
+                o = st_.orelse[:-1] if o_c else st_.orelse
+                if has_jump(b) or has_jump(o):
+                    return None
+                rest = rw(block[i + 1:])
+                if rest is None:
+                    return None
+                nb = list(b) + ([] if b_c else rest)
+                no = list(o) + ([] if o_c else rest)
+                new = ast.If(test=st_.test, body=nb or [ast.Pass()], orelse=no)
+                ast.copy_location(new, st_)
+                ast.fix_missing_locations(new)
+                return out + [new]
+            if has_jump([st_]):
+                return None
+            out.append(st_)
+        return out
+
+    return rw(list(stmts))
+
+
+def _zipdict_keys(v):
+    """names for v == dict(zip(names, ...)), else None."""
+    if v[0] == "f" and v[1] == "builtins.dict" and len(v[2]) == 1:
+        z = v[2][0]
+        if z[0] == "f" and z[1] == "builtins.zip" and len(z[2]) >= 2:
+            return z[2][0]
+    return None
+
+
+def _concrete_domain(dom) -> bool:
+    """A literal list of dataclass-field descriptors, or of (constant key, value) pairs."""
+    if not (isinstance(dom, tuple) and dom and dom[0] in ("l", "t") and dom[1]):
+        return False
+    if all(x[0] == "fld" for x in dom[1]):
+        return True
+    return all(x[0] == "t" and len(x[1]) == 2 and x[1][0][0] == "k" for x in dom[1])
+
+
 def compare(op, a, b):
     num = T.is_numeric(a) and T.is_numeric(b)
     if isinstance(op, (ast.Is, ast.IsNot)):
@@ -1424,6 +1560,16 @@ def compare(op, a, b):
         return negate(r) if isinstance(op, ast.IsNot) else r
     if isinstance(op, (ast.In, ast.NotIn)):
         r = ("in", a, b)
+        if a[0] == "k":
+            members = None
+            if b[0] in ("l", "t"):
+                members = b[1]
+            elif b[0] == "f" and b[1] == "set":
+                members = b[2]
+            elif b[0] == "d":
+                members = tuple(k for k, _ in b[1])
+            if members is not None and all(m[0] == "k" and m[1] != "**" for m in members):
+                r = T.TRUE if a in members else T.FALSE
         return negate(r) if isinstance(op, ast.NotIn) else r
     if not num:
         name = {ast.Eq: "==", ast.NotEq: "!=", ast.Lt: "<", ast.LtE: "<=", ast.Gt: ">", ast.GtE: ">="}[type(op)]
